@@ -438,8 +438,24 @@ def run(chk, repo, tier):
                       'subs does not visit both all rates and all compartments', line=sb.node.lineno,
                       witness='a substitution of a symbol used in a lag time / dose / rate is not applied everywhere')
 
-    # ---------------------------------------------------------------- O7 typestate
+    run_o7(chk, O7, repo)
+
+
+# stale -> replacer calls whose intended effect was already achieved by the preceding call (read and confirmed):
+O7_NOOP_OK = {
+    ('set_transit_compartments', 'move_dose', 'set_dose'): 'move_dose already moved the admid-1 dose; the stale set_dose is a no-op with the same end state',
+    ('set_transit_compartments', 'move_dose', 'add_dose'): 'move_dose already moved the admid-1 dose; the stale add_dose is a no-op with the same end state',
+}
+
+
+def run_o7(chk, O7, repo, only_modules=None):
+    m = repo.module('pharmpy.model.statements')
+    cbc = m.classes.get('CompartmentalSystemBuilder')
+    if cbc is None:
+        raise AnalysisError('CompartmentalSystemBuilder not found')
     for f in repo.all_funcs():
+        if only_modules is not None and f.module.name not in only_modules:
+            continue
         src_has = False
         for c in calls_in(f.node):
             if isinstance(c.func, ast.Attribute) and c.func.attr in REPLACERS:
@@ -510,7 +526,12 @@ def run(chk, repo, tier):
                                                       'system contains the compartment twice, one copy with the '
                                                       'input/dose and one with the flow; equations are wrong')
                             elif c2.func.attr in REPLACERS:
+                                exc = O7_NOOP_OK.get((f.name, c.func.attr, c2.func.attr))
                                 chk.violation(O7, f.module.rel, f.qualname,
                                               f'{unparse(c)} ... {unparse(c2)}',
                                               f'stale `{v}` passed to {c2.func.attr}() (relabel of a node that is no '
-                                              f'longer in the graph is a silent no-op)', line=nd.line, advisory=True)
+                                              f'longer in the graph is a silent no-op)' + (f' [listed no-op: {exc}]' if exc else ''),
+                                              line=nd.line, advisory=bool(exc),
+                                              witness='the compartment has a non-default attribute set by the first call '
+                                                      '(e.g. a lag time): the second setter is silently dropped, e.g. '
+                                                      'bioavailability disappears from the system')
